@@ -226,6 +226,8 @@ func (w *World) Run() {
 			if o := w.observer(st.Node); o != nil {
 				o.Resolve(st)
 			}
+		case SCompose:
+			w.execCompose(st)
 		default:
 			w.T.Event("unknown step kind %q ignored", st.Op)
 		}
